@@ -303,7 +303,8 @@ non-trivial = A: at least one representable triple and (a literal with a charact
                 "a", "1", " ", "\n", "\r", "\t", "\u{e9}", "\u{1}"];
             const RP2: [&str; 8] = ["&#4294967296;", "&#+32;", "&#x;", "&#;", "&#xZ;", "&#00065;", "&#X41;", "&&"];
             let mut raw = String::new();
-            for _ in 0..r.below(7) { raw.push_str(if r.chance(1, 8) { r.ps(&RP2) } else { r.ps(&RP) }); }
+            if r.chance(1, 8) { for _ in 0..r.range(1, 4) { raw.push_str(r.ps(&[" ", "\n", "\t", "\r"])); } }     // whitespace-only
+            else { for _ in 0..r.below(7) { raw.push_str(if r.chance(1, 8) { r.ps(&RP2) } else { r.ps(&RP) }); } }
             let tdoc = format!("<?xml version=\"1.0\" encoding=\"UTF-8\"?><rdf:RDF xmlns:rdf=\"{RDF}\"><rdf:Description rdf:about=\"http://e/s\"><p xmlns=\"http://e/\">{raw}</p></rdf:Description></rdf:RDF>");
             let adoc = format!("<?xml version=\"1.0\" encoding=\"UTF-8\"?><rdf:RDF xmlns:rdf=\"{RDF}\" xmlns:e=\"http://e/\"><rdf:Description rdf:about=\"http://e/s\" e:p=\"{raw}\"/></rdf:RDF>");
             let one = |r: Result<Vec<T3>, String>| -> Option<String> { r.ok().and_then(|g| if g.len() == 1 { lex_of(&g[0][2]) } else { None }) };
